@@ -1,2 +1,5 @@
 HOOK_COMMITS = []  # no hook commits so far: all instrumentation is overlaid from /verif/harness
 NOT_APPLICABLE_REASON = {}
+
+# properties whose check is finished and registered in MANIFEST.json (others are listed under not_applicable until then)
+CLAIMED = ["C07", "C20"]
